@@ -14,8 +14,12 @@ pub fn comment_p() -> impl Parser<StringView, Output = Statement, Error = Parser
 /// Parses a comment as a [String].
 /// Does not consume the EOL token.
 pub fn comment_as_string_p() -> impl Parser<StringView, Output = String, Error = ParserError> {
+    // the text of a comment is read character by character up to the end of the line (CR, LF or
+    // end of input): it is not source code, so it must not be tokenized (a run of more than
+    // 40 letters inside a comment is not an over-long identifier)
     any_symbol_of!('\'').and_keep_right(
-        any_token_of!(TokenType::Eol ; mode = MatchMode::Exclude)
+        read_p()
+            .filter(|ch: &char| *ch != '\r' && *ch != '\n')
             .many_allow_none(StringManyCombiner),
     )
 }
